@@ -115,6 +115,24 @@ func runC14(r *evid.Run) {
 		}
 		desc := strings.Join(lines, " ; ")
 		sig := func(kind string) string {
+			// two two-qubit gates sharing a layer: classified by how their qubit pairs interlock
+			if len(row.Circ) == 2 && len(row.Circ[0].Qs) == 2 && len(row.Circ[1].Qs) == 2 {
+				a, b := row.Circ[0].Qs, row.Circ[1].Qs
+				lo := func(x []int) int { return minInt(x[0], x[1]) }
+				hi := func(x []int) int {
+					if x[0] > x[1] {
+						return x[0]
+					}
+					return x[1]
+				}
+				if !(a[0] == b[0] || a[0] == b[1] || a[1] == b[0] || a[1] == b[1]) {
+					class := "side-by-side"
+					if !(hi(a) < lo(b) || hi(b) < lo(a)) {
+						class = "interlocked"
+					}
+					return kind + ":same-layer-two-qubit-gates-" + class
+				}
+			}
 			var names []string
 			for _, g := range row.Circ {
 				names = append(names, g.G)
